@@ -119,6 +119,7 @@ def main(argv: Optional[List[str]] = None) -> int:
     ap.add_argument('--no-minimise', action='store_true')
     ap.add_argument('--no-evidence', action='store_true')
     ap.add_argument('--list-signatures', action='store_true', help='print every signature seen (soak mode)')
+    ap.add_argument('--dump-digests', help='write {task index: result digest} as JSON (determinism self-test)')
     ap.add_argument('--ignore-known', action='store_true', help='treat known findings as violations (to regenerate their replay files)')
     ap.add_argument('--only', help='regex: report (and minimise) only violations whose signature matches (triage aid)')
     args = ap.parse_args(argv)
@@ -229,6 +230,9 @@ def do_check(mod: Any, prop: str, args: Any) -> int:
             selfcheck['divergent'] += 1
             harness_errors.append(f'determinism self-check: task {pick[idx]} diverged on re-run ({status})')
 
+    if args.dump_digests:
+        with open(args.dump_digests, 'w') as f:
+            json.dump({str(k): v for k, v in sorted(digests.items())}, f)
     if harness_errors:
         for e in harness_errors[:5]:
             print('HARNESS-ERROR:', e)
